@@ -6,6 +6,8 @@ from hypothesis import strategies as st
 from kappadata.datasets import KDDataset
 from vlib.core import Case, Facet, Refused, Violation
 
+# thorough-tier budgets of every facet are multiplied by this factor (sized for ~5-8 min on 16 cores)
+THOROUGH_SCALE = 3
 LEVEL = "exploration"
 RULE = ("spec = id-encoded dataset (n 2..48, C 2..10, equal shapes or - with mixup_unify_shapes_mode='pad_or_cut_end' - per-sample "
         "shapes differing in any axis), mixup_p in (0,1], alpha in (0.05,4], seed or None, indices, request form (x / class / "
